@@ -1,6 +1,7 @@
 import OmbottModel.Drv.Common
 import OmbottModel.Drv.Router
 import OmbottModel.Model.RouteUrl
+import OmbottModel.Model.RouterBuiltinEnv
 /-!
 Protocol lines of the URL-building model (C19).  Lines are self-contained (stateless).
 
@@ -17,6 +18,16 @@ Protocol lines of the URL-building model (C19).  Lines are self-contained (state
         `m`/`m2` come from the tree (`RadiDict.get`), `s`/`s2` from the rule-by-rule matcher
         `matchRule` the theorems are stated over (`-` when the rule has a `rex` filter, whose
         selectors that matcher does not cover).
+
+  `routeurl hyp <rule>|<cerr>|<path>|<env>|<fenv>`
+        the hypotheses of `url_rematch_builtin` evaluated on the match of `path`, and whether the URL
+        built from the matched values is matched again with the same values
+        → `add-err` | `miss` | `h=<0|1> r=<0|1>`   (`h` = `urlDomain ∧ selFree ∧ builtinOnly ∧ ¬convAfterTok ∧ sideOK`)
+
+The handlers of `int`, `float`, `path` and the formatters of `int` (on `int` values) and `float` (on
+finite `float` values) are computed by the model (`Builtins.withBuiltin`, `Builtins.withFloatFmt`);
+the shipped answers are consulted for user regular expressions, for `float(text)` outside the
+exactly modelled domain and for formatter calls on other values.
 
 Text is hex of UTF-8, `~` = empty list.  `cerr`, `env` as in `Drv/Router.lean`; `args` = values,
 `kw` = `name=value,…`; `fenv` = `fid:value=ok.<text>|err.<ErrName>;…` (answers of the real
@@ -88,7 +99,7 @@ def handle : List String → Option String
       | .ok p =>
         if !inDomain rule p then none else
         let r : Route := { rule := rule, syms := p.syms, params := p.params, symsOut := p.symsOut }
-        pure (showUrl (routeUrl (withInt (envOf env)) (fenvOf fenv) r args kw))
+        pure (showUrl (routeUrl (envOfB env) (Ombott.Builtins.withFloatFmt (fenvOf fenv)) r args kw))
     | _ => none
   | ["rt", arg] =>
     match splitBar arg with
@@ -107,17 +118,52 @@ def handle : List String → Option String
       | .error e => pure ("add-err:" ++ e)
       | .ok id =>
         let r ← R.obj? id
-        let env := withInt (envOf env)
+        let env := envOfB env
+        let fenv := Ombott.Builtins.withFloatFmt (fenvOf fenv)
         let spec (s : Str) : String := if hasRex r.syms then "-" else showMatch (matchRule env r.syms s)
         match treeGet env R.tree (stripSlash path) with
         | .miss .. => pure "m=miss"
         | .hit _ keys vals _ =>
           let head := s!"d={show01 (urlDomain r && (selFree r || hasRex r.syms))} m={showVals vals} s={spec (stripSlash path)}"
           let (a, k) := splitArgs keys vals
-          match routeUrl env (fenvOf fenv) r a k with
+          match routeUrl env fenv r a k with
           | .error e => pure s!"{head} u=err:{e}"
           | .ok u =>
             pure s!"{head} u=ok:{hexStr u} m2={showGet (treeGet env R.tree (stripSlash u))} s2={spec (stripSlash u)}"
+    | _ => none
+  | ["hyp", arg] =>
+    match splitBar arg with
+    | [rule, cerr, path, envt, fenv] => do
+      let cerr ← parseCerr cerr
+      let envt ← parseEnv envt
+      let fenv ← parseFenv fenv
+      let rule := unhexStr rule
+      let path := unhexStr path
+      let cenv := cenvOf cerr
+      match parseRule cenv rule with
+      | .ok p => if inDomain rule p then pure () else none
+      | .error _ => pure ()
+      let (R, out) := ({} : Router).add asciiUpper cenv { rule := rule, methods := ["GET".toList], handler := 0 }
+      match out with
+      | .error _ => pure "add-err"
+      | .ok id =>
+        let r ← R.obj? id
+        let fc := fcOf envt
+        let env := envOfB envt
+        let fenv := Ombott.Builtins.withFloatFmt (fenvOf fenv)
+        match treeGet env R.tree (stripSlash path) with
+        | .miss .. => pure "miss"
+        | .hit _ keys vals _ =>
+          let h := urlDomain r && selFree r && Ombott.Builtins.builtinOnly r.syms &&
+            !Ombott.Builtins.convAfterTok r.syms && Ombott.Builtins.sideOK fc env fenv r.syms vals
+          let (a, k) := splitArgs keys vals
+          let re := match routeUrl env fenv r a k with
+            | .error _ => false
+            | .ok u =>
+              match treeGet env R.tree (stripSlash u) with
+              | .hit _ _ vals2 _ => vals2 == vals
+              | .miss .. => false
+          pure s!"h={show01 h} r={show01 re}"
     | _ => none
   | _ => none
 
